@@ -1,2 +1,64 @@
-(* Property C04 — placeholder while the proofs are being written: statements follow. *)
-From Nitro Require Import Opt.Run.
+(* Property C04 — bad user input always ends in the user-input error, under exact conditions.  Only statements.
+   PARTIAL by nature: "never crashes, hangs, reads out of bounds" is a statement about the machine; the model is a total
+   Gallina function (so it terminates on every input) and has exactly three outcomes; the sanitizer-instrumented
+   driver exercises the real code on the malformed stream (props/C04.py). *)
+From Coq Require Import List Arith Bool ZArith.
+From Coq Require Import Init.Byte.
+From Nitro Require Import Base.Bytes Base.Res Opt.Token Opt.Decl Opt.ParserModel Opt.ParserCore Opt.ParserSpec Opt.Vocab Opt.Run
+  Opt.RefineDefs Opt.Corollaries Opt.CoreEq Opt.History Opt.Positional Opt.Lexical Opt.Refine5 Opt.Sample.
+Import ListNotations.
+
+(* parse is a total function with three possible outcomes; for a consistent declaration the developer error is impossible *)
+Theorem C04_no_dev_error : forall d e st args, consistent d = true -> snd (parse d e st args) <> Err DevError.
+Proof. exact (no_dev_error truthy falsy). Qed.
+Print Assumptions C04_no_dev_error.
+Theorem C04_dev_error_iff_inconsistent : forall d e st args, snd (parse d e st args) = Err DevError <-> consistent d = false.
+Proof. exact (dev_error_iff_inconsistent truthy falsy). Qed.
+Print Assumptions C04_dev_error_iff_inconsistent.
+(* the accessor guards of user_input (which raise the developer error) are never hit: the guarded model equals the core *)
+Theorem C04_guards_never_fire : forall d e st args, parse d e st args = parse_c truthy falsy d e st args.
+Proof. exact (parse_g_eq truthy falsy). Qed.
+Print Assumptions C04_guards_never_fire.
+
+(* the user-input error is raised EXACTLY when a documented condition holds *)
+Theorem C04_error_iff_documented : forall d e st args,
+  wf_decl d = true -> consistent d = true -> no_clash d = true -> aligned d st ->
+  (snd (parse d e st args) = Err UserError <-> documented_condition truthy falsy d e args = true).
+Proof. exact (error_iff_documented truthy falsy). Qed.
+Print Assumptions C04_error_iff_documented.
+(* ... where the semantic conditions are: a single-valued option twice (any mix of spellings), both polarities of a toggle,
+   --no- on an irreversible toggle *)
+Theorem C04_semantic_conditions : forall d its, forallb (item_valid d) its = true ->
+  (items_sem d [] its = true <->
+   (forall i, i < length (d_opts d) -> length (opt_values i its) <= 1) /\
+   (forall t, t < length (d_toggles d) -> ~ (0 < occurrences t its /\ 0 < negations t its)) /\
+   (forall t, In (ItNo t) its -> exists td, nth_error (d_toggles d) t = Some td /\ t_rev td = true)).
+Proof. exact Refine3.items_sem_iff. Qed.
+Print Assumptions C04_semantic_conditions.
+(* ... the source conditions: a required option without source, an unparsable environment word for a toggle *)
+Theorem C04_source_conditions : forall d e items tail,
+  assign d e items tail = Err UserError <->
+  (exists i o, nth_error (d_opts d) i = Some o /\ src_bad (opt_source e o (opt_values i items)) = true) \/
+  (exists i o, nth_error (d_multis d) i = Some o /\ src_bad (multi_source e o (multi_values i items)) = true) \/
+  (exists j t, nth_error (d_toggles d) j = Some t /\ src_bad (toggle_source truthy falsy e t (occurrences j items) (negations j items)) = true).
+Proof. exact (assignment_fails_iff truthy falsy). Qed.
+Print Assumptions C04_source_conditions.
+Theorem C04_bad_env_word_iff : forall e t occ neg,
+  src_bad (toggle_source truthy falsy e t occ neg) = true <->
+  occ = 0 /\ neg = 0 /\ nonempty (env_get e (t_env t)) = true /\ env_word (env_get e (t_env t)) = None.
+Proof. exact (toggle_badenv_iff truthy falsy). Qed.
+Print Assumptions C04_bad_env_word_iff.
+
+Module Examples.
+Import Strings.String.
+Local Open Scope string_scope.
+Example C04_ex : map (fun a => snd (parse sample_decl sample_env (init_st sample_decl) a))
+   [[B "--out=1"; B "--unknown"]; [B "--out"]; [B "--out=1"; B "-o"; B "2"]; [B "--out=1"; B "--verbose=x"];
+    [B "--out=1"; B "---x"]; [B "--out=1"; B "-="]; [B "--out=1"; B "p"; B "q"; B "r"]; []; [B "--out=1"; B "--"; B "---x"; B "-="]]
+   = [Err UserError; Err UserError; Err UserError; Err UserError; Err UserError; Err UserError; Err UserError; Err UserError;
+      snd (parse sample_decl sample_env (init_st sample_decl) [B "--out=1"; B "--"; B "---x"; B "-="])]
+   /\ is_ok (snd (parse sample_decl sample_env (init_st sample_decl) [B "--out=1"; B "--"; B "---x"; B "-="])) = true.
+Proof. vm_compute. split; reflexivity. Qed.
+Example C04_ex_bad_env : snd (parse sample_decl (fun _ => Some (B "maybe")) (init_st sample_decl) [B "--out=1"]) = Err UserError.
+Proof. vm_compute. reflexivity. Qed.
+End Examples.
